@@ -366,7 +366,7 @@ def string_from_str(it, args, callee):
 
 def as_str(v):
     v = deref_all(v)
-    if isinstance(v, (Str, DecStr)):
+    if isinstance(v, (Str, DecStr, CatStr)):
         return v
     raise ModelError('expected string, got %r' % (v,))
 
@@ -379,6 +379,10 @@ def sbytes(v, what='string operation'):
         if v.text is not None:
             return v.text
         raise Unsupported(what + ' on the text of a computed symbolic decimal')
+    if isinstance(v, CatStr):
+        if v.ds.text is not None:
+            return v.prefix + v.ds.text
+        raise Unsupported(what + ' on bytes followed by the text of a computed symbolic decimal')
     raise ModelError('expected string, got %r' % (v,))
 
 
@@ -641,6 +645,17 @@ def parse_i64_concrete(bs):
 @pattern(r'^core::str::<impl str>::parse::<i64>$')
 def str_parse_i64(it, args, callee):
     s = as_str(args[0])
+    if isinstance(s, CatStr):
+        # concrete bytes followed by the (non-empty) text of a symbolic decimal
+        pre = bytes(s.prefix)
+        body = pre[1:] if pre[:1] in (b'+', b'-') else pre
+        if not body.isdigit():
+            return Err(Opaque('ParseIntError'))            # a byte that is no digit: InvalidDigit whatever follows
+        if int(body) * 10 > (1 << 63):
+            return Err(Opaque('ParseIntError'))            # at least one more digit or an invalid byte follows: overflow / invalid
+        if s.ds.d.s > 0:
+            return Err(Opaque('ParseIntError'))            # the decimal text contains '.'
+        raise Unsupported('parse::<i64> of digits followed by the text of a symbolic decimal')
     if isinstance(s, DecStr):
         d = s.d
         if d.s > 0:
@@ -1090,6 +1105,22 @@ def fits96(it, m):
     return it.truth(z3.And(m >= -MAX96, m <= MAX96))
 
 
+def round_sum_half_even(r, truth):
+    """|r| / 10 rounded half to even, sign kept (r: Python int or z3 Int term that does not fit 96 bits)"""
+    if not is_sym(r):
+        mag = abs(r)
+        q, rem = divmod(mag, 10)
+        if rem > 5 or (rem == 5 and q % 2 == 1):
+            q += 1
+        return q if r >= 0 else -q
+    neg = truth(r < 0)
+    mag = simp(-r) if neg else r
+    q = mag / 10
+    rem = mag % 10
+    q = simp(q + z3.If(z3.Or(rem > 5, z3.And(rem == 5, q % 2 == 1)), 1, 0))
+    return simp(-q) if neg else q
+
+
 def dec_add(it, a, b, sign=1):
     A, B, s = dec_align(a, b)
     r = A + B if sign > 0 else A - B
@@ -1098,7 +1129,11 @@ def dec_add(it, a, b, sign=1):
         return Dec(r, s)
     if s == 0:
         it.panic('Addition overflowed' if sign > 0 else 'Subtraction overflowed')
-    raise OutsideModel('decimal add/sub result needs rescaling (rounding) to fit 96 bits')
+    if a.s == b.s:
+        # rust_decimal ops/add.rs aligned_add -> reduce_scale: operands on one scale, |sum| in (2^96-1, 2^97): one digit is
+        # dropped, round half to even, scale - 1 (the quotient always fits)
+        return Dec(round_sum_half_even(r, it.truth), s - 1)
+    raise OutsideModel('decimal add/sub of operands on different scales needs rescaling (rounding) to fit 96 bits')
 
 
 def is_zero(it, m):
